@@ -469,16 +469,25 @@ impl Qcow2Header {
             Qcow2Info::__max_refcount_table_size(size, cluster_size, refcount_order, block_size);
         let rc_table_clusters = rc_table_size.div_ceil(cluster_size);
 
-        let rc_block_offset = rc_table_offset + ((rc_table_clusters as u64) << cluster_bits);
-        let rc_block_clusters = 1;
-
-        let l1_table_offset = rc_block_offset + cluster_size as u64;
         let l1_table_entries = Qcow2Info::get_max_l1_entries(size, cluster_bits);
         let l1_table_size = Qcow2Info::__max_l1_size(l1_table_entries, block_size);
         let l1_table_clusters = l1_table_size.div_ceil(cluster_size);
 
+        // enough refcount blocks to cover every cluster used for meta data,
+        // the blocks themselves included
+        let rc_block_offset = rc_table_offset + ((rc_table_clusters as u64) << cluster_bits);
+        let rb_entries = (cluster_size * 8) >> refcount_order;
+        let mut rc_block_clusters = 1;
+        while 1 + rc_table_clusters + rc_block_clusters + l1_table_clusters
+            > rc_block_clusters * rb_entries
+        {
+            rc_block_clusters += 1;
+        }
+
+        let l1_table_offset = rc_block_offset + ((rc_block_clusters as u64) << cluster_bits);
+
         let rc_table = (rc_table_offset, rc_table_clusters as u32);
-        let rc_block = (rc_block_offset, rc_block_clusters);
+        let rc_block = (rc_block_offset, rc_block_clusters as u32);
         let l1_table = (l1_table_offset, l1_table_clusters as u32);
 
         (rc_table, rc_block, l1_table)
@@ -526,7 +535,9 @@ impl Qcow2Header {
         }
 
         //me
-        ref_b.increment((rc_table.1 as usize) + 1)?;
+        for i in 0..rc_blk.1 as usize {
+            ref_b.increment((rc_table.1 as usize) + 1 + i)?;
+        }
 
         //l1 table
         let start = l1_table.0;
@@ -535,7 +546,9 @@ impl Qcow2Header {
             ref_b.increment((i >> cluster_bits) as usize)?;
         }
 
-        rc_t.set(0, RefTableEntry(rc_blk.0));
+        for i in 0..rc_blk.1 as usize {
+            rc_t.set(i, RefTableEntry(rc_blk.0 + ((i as u64) << cluster_bits)));
+        }
 
         // commit meta into external buffer
         let buf_start = buf.as_mut_ptr() as u64;
